@@ -33,7 +33,7 @@ CBMC_BASE = ["--unwinding-assertions", "--no-malloc-may-fail", "--drop-unused-fu
              "--object-bits", "12", "--slice-formula"]
 # exception-object construction is never the subject: backtrace capture is skipped (DESIGN 2.2)
 DEFAULT_NOOP = ["^_ZN7booster9backtraceC[12]Em$"]
-MEM_LIMIT_KB = 28 * 1024 * 1024
+MEM_LIMIT_KB = 16 * 1024 * 1024
 
 
 class Inconclusive(Exception):
@@ -108,7 +108,7 @@ def build_native(ctx, ob, tcfg):
                 "-Wl,-rpath," + bdir, "-Wl,-rpath," + bdir + "/booster"]
     cmd = (["g++", "-std=c++11", "-O1", "-g", "-fsanitize=address", "-fno-omit-frame-pointer", "-w",
             "-DVERIF_NATIVE", "-DVERIF_ENTRY=" + ob["entry"]] + DEFS + defs_args(defs) + INC +
-           [src, os.path.join(ROOT, "harness", "verif_native.cpp"), "-o", exe] + libs + ["-lpthread", "-ldl"])
+           [src, os.path.join(ROOT, "harness", "verif_native.cpp"), "-o", exe] + libs + ["-lpthread", "-ldl", "-lz"])
     rc, out, dt, to = run(cmd, timeout=900)
     if rc != 0:
         raise Inconclusive("native build failed for %s:\n%s" % (ob["entry"], out[-3000:]))
@@ -159,6 +159,8 @@ def cbmc_cmd(ob, tcfg, cfile, entry, extra=(), params=()):
         cmd.append("-DVERIF_PARAM%d=%d" % (i, p))
     if "max_alloc" in tcfg or "max_alloc" in ob:
         cmd.append("-DVERIF_MAX_ALLOC=%d" % tcfg.get("max_alloc", ob.get("max_alloc")))
+    if "big_alloc" in tcfg or "big_alloc" in ob:
+        cmd.append("-DVERIF_BIG_ALLOC=%d" % tcfg.get("big_alloc", ob.get("big_alloc")))
     cmd += ["--function", "verif_main_" + entry] + CBMC_BASE
     uw = tcfg.get("unwind", 8)
     if isinstance(uw, str):
@@ -479,7 +481,7 @@ def do_check(a, scratch):
         obs = [o for o in P["obligations"]]
     if a.only:
         obs = [o for o in obs if o["id"] == a.only or o["entry"] == a.only]
-    jobs = a.jobs or (os.cpu_count() or 4)
+    jobs = a.jobs or min(12, os.cpu_count() or 4)
     ctx = Ctx(prop, a.tier, scratch, jobs, a.keep)
     t0 = time.time()
     results = []
